@@ -238,12 +238,16 @@ class IncrementalPublisher:
                 )
         elif isinstance(event, GroupFailureEvent):
             group = cast("DeliveryGroup", event.group)
-            context.completed.append(
-                CompletedResult(
-                    self._ensure_id(group), [ensure_graphql_error(event.error)]
+            # A nested group can fail (via a task shared with another group) before
+            # its parent has completed, i.e. before it was ever announced as pending;
+            # there is nothing to complete then, and the error is reported by the
+            # other group.
+            group_id = self._ids.get(group)
+            if group_id is not None:
+                context.completed.append(
+                    CompletedResult(group_id, [ensure_graphql_error(event.error)])
                 )
-            )
-            del self._ids[group]
+                del self._ids[group]
         elif isinstance(event, StreamValuesEvent):
             stream = cast("ItemStream", event.stream)
             id_ = self._ensure_id(stream)
